@@ -17,6 +17,7 @@ func vCover(label string)    {}
 func vConcrete(x int64) int64 { return x }
 func vIsEngine() bool        { return false }
 func vOut(s string)          {}
+func vSame(key, val string)    {}
 func vKnown(key string)               {}
 func vParam(name string, def int) int { return def }
 func vAnd(a, b bool) bool             { return a && b }
